@@ -396,4 +396,8 @@ R.add('L9.6', _c05.l52, lambda tier: [dict(maxfrag=(3 if tier == 'quick' else 8)
       expect=['no payload size is left unsent: the queue drains'],
       bounds='L <= MAX_PAYLOAD_SIZE + 3 (thorough 8) * MAX_FRAGMENT_SIZE, MTU 512..1500')
 
+for _lid in ['L9.1', 'L9.2', 'L9.6']:
+    if _lid in R.lemmas:
+        R.lemmas[_lid].api = True
+
 get_harness = R.get_harness
